@@ -147,9 +147,41 @@ def payload_ok(ctx, payload):
     return not (set(payload) & set(" \t\n\f\r>")) and payload != "" and payload[0] not in "\"'"
 
 
+def _check_element_context(case):
+    """text content of the element == what the reference tree constructor (on the reference tokenizer) gives"""
+    from vf.ref import treebuilder as T
+    markup = case["markup"]
+    r, _ = h5.parse(markup, builder=case.get("builder", "etree"), container="div")
+    got = "".join(x[2] for x in obs.flat(r) if x[1] == "text")
+    want = "".join(x[2] for x in obs.flat_ref(T.parse_fragment(markup, context="div").root) if x[1] == "text")
+    if got != want:
+        return Verdict("fail", "%s builder: text of %s is %r, the standard gives %r" % (case.get("builder"), short(markup, 80), got, want), "element-context:" + case.get("builder", "etree"), nontrivial=True)
+    return Verdict("pass", nontrivial=True, sig=sig64("elctx", markup))
+
+
+def _check_edge_space(case):
+    from html5lib.serializer import HTMLSerializer
+    text, walker, enc = case["text"], case.get("walker", "etree"), case.get("encoding")
+    tree, _ = h5.parse("<p>" + text + "</p>", builder=walker, container="div")
+    ser = HTMLSerializer(omit_optional_tags=False, strip_whitespace=True)
+    out = ser.render(h5.walk(tree, walker), enc) if enc else ser.render(h5.walk(tree, walker))
+    if enc:
+        out = out.decode(enc)
+    r, _ = h5.parse(out, container="div")
+    got = "".join(x[2] for x in obs.flat(r) if x[1] == "text")
+    if got != text:
+        return Verdict("fail", "text %r through the %s walker and HTMLSerializer(strip_whitespace=True, encoding=%r) is written as %s and decodes to %r" % (text, walker, enc, short(out, 80), got),
+                       "edge-space:" + walker, nontrivial=True)
+    return Verdict("pass", nontrivial=True, sig=sig64("edge", text, walker, enc))
+
+
 def check_case(case):
+    if case.get("kind") == "edge-space":
+        return _check_edge_space(case)
     if case.get("kind") == "entity-token":
         return _check_entity_token(case)
+    if case.get("kind") == "element-context":
+        return _check_element_context(case)
     kind = case["kind"]
     if kind == "ref":
         ctx, payload = case["ctx"], case["payload"]
@@ -286,6 +318,7 @@ def shards(tier):
         out.append({"kind": "encode", "part": i, "of": 8, "stride": 4 if quick else 1})
     out.append({"kind": "encode-named"})
     out.append({"kind": "entity-tokens"})
+    out.append({"kind": "element-contexts"})
     return out
 
 
@@ -414,6 +447,20 @@ def run_shard(desc, seed, tier):
                         acc.add(case, v)
                         acc.count("encoded-codepoints:" + enc, len(text))
         acc.exhaustive = stride == 1
+    elif kind == "element-contexts":
+        # references as element content where the tree constructor (not the tokenizer) treats newlines / white space specially:
+        # pre, listing, textarea, table cells, select, after other text; both tree builders
+        ws_names = sorted(n for n in HTML5 if HTML5[n].strip(" \t\n\x0c\r") == "" or "\n" in HTML5[n])
+        refs = ["&" + n for n in ws_names] + ["&#10;", "&#xA;", "&#9;", "&#32;", "&#13;", "&#12;", "&amp;\n", "&lt;\n", "&#10;\n", "&nbsp;\n", "&amp;", "&eacute;\n"] + \
+               ["&" + n for n in NAMES[::37]]
+        shells = ["<pre>x%sy</pre>", "<pre>%sy</pre>", "<listing>x%sy</listing>", "<textarea>x%sy</textarea>", "<textarea>%sy</textarea>", "<table><tr><td>x%sy</td></tr></table>",
+                  "<pre><b>x</b>%sy</pre>", "<pre>x%s</pre>", "<p>x%sy</p>"]
+        for builder in ("etree", "dom"):
+            for shell in shells:
+                for ref in refs:
+                    markup = shell % ref
+                    case = {"kind": "element-context", "markup": markup, "builder": builder}
+                    acc.add(case, check_case(case))
     elif kind == "entity-tokens":
         # the walker-format 'Entity' token (an unexpanded entity reference in the tree): whatever the serializer writes for it -
         # the reference again, or its expansion when resolve_entities is on - must decode to the entity's characters, also when
@@ -458,6 +505,17 @@ def run_shard(desc, seed, tier):
                                     Verdict("fail", "Entity token %r followed by text %r (resolve_entities=%s) is written as %s, which decodes to %r instead of %r"
                                             % (nm, tail, resolve, short(o1, 80), g1, w1), "entity-token:%s" % ("resolved" if resolve else "kept"), nontrivial=True))
     elif kind == "encode-named":
+        # Unicode-but-not-HTML white space at the edges of a text node, through tree -> walker -> serializer(strip_whitespace=True):
+        # the named references of these characters must come back as the characters (the text has no ASCII white space to collapse)
+        from html5lib.serializer import HTMLSerializer
+        uni_ws = sorted(set(ord(v) for v in HTML5.values() if len(v) == 1 and v.isspace() and v not in " \t\n\x0c\r") | {0xA0, 0x2003, 0x3000})
+        for cp in uni_ws:
+            for shape in ("%sa", "a%s", "%s", "a%sb", "%s%s"):
+                text = shape.replace("%s", chr(cp))
+                for walker in ("etree", "dom"):
+                    for enc in ("ascii", None):
+                        case = {"kind": "edge-space", "text": text, "walker": walker, "encoding": enc}
+                        acc.add(case, check_case(case))
         # every code point that has a name in the standard's table (these are the ones the serializer writes as named
         # references), in every tier, each followed by the characters that would be misread after an unterminated name
         from html.entities import html5 as TABLE
